@@ -205,7 +205,15 @@ func (st *State) mayPanic(c *Term, what string, fr *frame, pos token.Pos) {
 
 func (st *State) freshVar(label string, s Sort) *Term {
 	st.nondet++
-	name := fmt.Sprintf("nd%d_%s", st.nondet, sanitize(label))
+	// (the sort is part of the name: solver processes are reused across paths, and the k-th draw of two paths may differ in sort)
+	tag := "b"
+	switch s.K {
+	case 1:
+		tag = "i"
+	case 2:
+		tag = fmt.Sprintf("v%d", s.W)
+	}
+	name := fmt.Sprintf("nd%d_%s_%s", st.nondet, sanitize(label), tag)
 	v := Var(name, s)
 	st.solver.define(v)
 	if st.solver.fallback != nil {
@@ -354,8 +362,9 @@ func (st *State) runInit(p *ssa.Package) {
 }
 
 type fnInfo struct {
-	name string
-	in   intrinsic
+	name   string
+	in     intrinsic
+	opaque bool
 }
 
 var fnCache sync.Map // *ssa.Function -> *fnInfo
@@ -366,6 +375,30 @@ func (e *Engine) info(fn *ssa.Function) *fnInfo {
 		return x.(*fnInfo)
 	}
 	fi := &fnInfo{name: fn.String()}
+	pk := fn.Pkg
+	if pk == nil && fn.Origin() != nil {
+		pk = fn.Origin().Pkg // instantiations of generic functions have no package of their own
+	}
+	if pk != nil {
+		pp := pk.Pkg.Path()
+		for _, pre := range []string{"cosmossdk.io/collections", "github.com/cosmos/cosmos-sdk/codec", "cosmossdk.io/store", "cosmossdk.io/core/store", "github.com/cosmos/cosmos-sdk/types/query"} {
+			if strings.HasPrefix(pp, pre) {
+				fi.opaque = true
+			}
+		}
+		if fi.opaque {
+			// pure key-tuple helpers run from their bodies
+			n := fn.Name()
+			for _, ok := range []string{"Join", "K1", "K2", "K3", "K4", "PairPrefix", "TriplePrefix", "TripleSuperPrefix", "QuadPrefix", "QuadSuperPrefix", "QuadSuperSuperPrefix", "NewPrefix", "GetCachedValue", "Bytes"} {
+				if strings.HasPrefix(n, ok) {
+					fi.opaque = false
+				}
+			}
+			if strings.Contains(fi.name, "codec/types.Any") || strings.Contains(fi.name, "codec/types.(*Any)") {
+				fi.opaque = false
+			}
+		}
+	}
 	if in, ok := e.intrinsics[fi.name]; ok {
 		fi.in = in
 	} else if o := fn.Origin(); o != nil {
@@ -389,6 +422,12 @@ func (st *State) callFunction(caller *frame, fn *ssa.Function, args []value, cc 
 	}
 	if fn.Blocks == nil {
 		panic(pathEnd{kind: "unsupported", msg: "no body/summary for " + name})
+	}
+	if fi.opaque {
+		// libraries that are summarised by design: executing an un-summarised entry point from its body would run on
+		// summary values (nil codecs, opaque stores) and produce artefacts; the path ends "unsupported" instead and is
+		// replayed natively (concolic fallback)
+		panic(pathEnd{kind: "unsupported", msg: "no summary for " + name})
 	}
 	if st.initing > 0 && fn.Synthetic == "package initializer" && fn.Pkg != nil {
 		// nested package init: only when guard not yet set
